@@ -57,6 +57,17 @@ impl<P: Printer> InteractivePrinter<P> {
       println!("{new_content}");
       Ok(())
     } else {
+      #[cfg(feature = "verif-hooks")]
+      ast_grep_core::verif::emit(
+        "write",
+        &[
+          (
+            "path",
+            ast_grep_core::verif::V::S(&path.display().to_string()),
+          ),
+          ("len", ast_grep_core::verif::V::U(new_content.len() as u64)),
+        ],
+      );
       std::fs::write(path, new_content).with_context(|| EC::WriteFile(path.clone()))
     }
   }
